@@ -79,6 +79,10 @@ def _ops():
         "update_all_nochange": lambda db: db.update_all(unset_fields=["zz"]),
         "drop_absent": lambda db: db.drop_measurement("zz"),
         "m.remove_nomatch": lambda db: db.measurement("m").remove(qn),
+        "m.remove_absent": lambda db: db.measurement("zz").remove(qa),
+        "m.update_absent": lambda db: db.measurement("zz").update(qa, tags={"k": "b"}),
+        "m.update_all_absent": lambda db: db.measurement("zz").update_all(fields={"f": 2}),
+        "remove_filter_absent": lambda db: db.remove(qa, "zz"),
         "m.remove_all_absent": lambda db: db.measurement("zz").remove_all(),
         "m.update_nochange": lambda db: db.measurement("m").update(qa, fields={"f": 1}),
     }
